@@ -131,6 +131,14 @@ def build_world(seed=WORLD_SEED):
             pos += 250
     w['cnr_many'] = CNA(pd.DataFrame(many, columns=['chromosome', 'start', 'end', 'gene', 'log2', 'depth', 'weight']),
                         {'sample_id': 'S1'})
+    # --- the same bins with chrX at the autosomal level: the inferred sex of this sample DIFFERS between a diploid-X and a
+    #     haploid-X reference (round-4 seed C10-m11: an answer memoised under one reference setting must not be reused)
+    x0 = cnr.data.copy()
+    x0.loc[x0.chromosome == 'chrX', 'log2'] += 1.0
+    w['cnr_x0'] = CNA(x0, {'sample_id': 'S2'})
+    # --- a caller-owned LIST holding one segmentation, for two samples (round-4 seed C10-m12: the list must keep its length)
+    w['cnr_pair'] = [w['cnr'], w['cnr_x0']]
+    w['cns_list1'] = [w['cns']]
     return w
 
 
@@ -206,6 +214,17 @@ def make_ops():
         'guess_xx': lambda w, p: w['cnr'].guess_xx(),
         'residuals': lambda w, p: w['cnr'].residuals(w['cns']),
         'smooth_shuffle': lambda w, p: _shuffle_sorted(w),
+        # every bin filter off: nothing re-slices the caller's table before the method runs (round-4 seed C10-m10)
+        'segment_hmm_nofilter': lambda w, p: segmentation.do_segmentation(w['cnr'], 'hmm', skip_low=False, skip_outliers=0),
+        'segment_haar_nofilter': lambda w, p: segmentation.do_segmentation(w['cnr'], 'haar', skip_low=False, skip_outliers=0,
+                                                                             processes=p),
+        'segment_none_nofilter': lambda w, p: segmentation.do_segmentation(w['cnr'], 'none', skip_low=False, skip_outliers=0,
+                                                                             processes=p),
+        'guess_xx_x0': lambda w, p: w['cnr_x0'].guess_xx(is_haploid_x_reference=False),
+        'guess_xx_x0_hapx': lambda w, p: w['cnr_x0'].guess_xx(is_haploid_x_reference=True),
+        'genemetrics_x0': lambda w, p: reports.do_genemetrics(w['cnr_x0'], None, 0.2, 2, is_haploid_x_reference=False),
+        'genemetrics_x0_hapx': lambda w, p: reports.do_genemetrics(w['cnr_x0'], None, 0.2, 2, is_haploid_x_reference=True),
+        'metrics_pair_list1': lambda w, p: metrics.do_metrics(w['cnr_pair'], w['cns_list1']),
     }
     return ops
 
@@ -384,7 +403,7 @@ def run(ck, scratch):
     for n in names:
         histories.append([(n, 1), (n, 1)])
     nrand = 60 if ck.tier == 'quick' else 1500
-    heavy = {'segment_hmm_germline', 'fix', 'segmetrics'}
+    heavy = {'segment_hmm_germline', 'segment_hmm_nofilter', 'fix', 'segmetrics'}
     for _ in range(nrand):
         L = ck.rng.randint(2, 4)
         h = []
@@ -400,6 +419,9 @@ def run(ck, scratch):
             histories.append([(a, 1), (b, 1)])
     # make sure 16 processes is exercised at least once in quick as well
     histories.append([('segment_none', 16), ('segment_haar', 2)])
+    # sex inferred under one reference setting, then under the other, on the same object (both orders)
+    histories.append([('guess_xx_x0', 1), ('guess_xx_x0_hapx', 1), ('genemetrics_x0', 1), ('genemetrics_x0_hapx', 1), ('genemetrics_x0', 1)])
+    histories.append([('genemetrics_x0_hapx', 1), ('genemetrics_x0', 1), ('guess_xx_x0_hapx', 1), ('guess_xx_x0', 1)])
     histories.append([('segment_none_many', 2), ('segment_none_many', 3), ('merge_custom_combine', 1), ('merge', 1), ('flatten_custom_combine', 1), ('flatten', 1)])
     for h in histories:
         done = []
@@ -431,7 +453,7 @@ def run(ck, scratch):
         dw = derive_world(world, variant)
         dsnap = snapshot(dw)
         for n in names:
-            if ck.tier == 'quick' and n in ('segment_hmm_germline',) and variant != 'copy':
+            if ck.tier == 'quick' and n in ('segment_hmm_germline', 'segment_hmm_nofilter') and variant != 'copy':
                 continue
             np.random.seed(ck.rng.randrange(2 ** 32))
             random.seed(ck.rng.randrange(2 ** 32))
